@@ -130,8 +130,15 @@ def execute(job):
     xg = cards.make_grid(GRID_N // 2, GRID_N - GRID_N // 2, x_min=1e-2)
     th = cards.theory(PTO=1, PTODIS=1, FNS="ZM-VFNS", mc=2.0, mb=5.0, mt=170.0, TMC=tmc, MP=MP, Q0=1.0)
     obsd = {}
+    alias = bool(job[5]) if len(job) > 5 else False
+    memo = {}
     for n, ks in plan:
-        obsd[NAMES[n]] = [{k: v for k, v in kd} for kd in ks]
+        if alias:
+            # the card shares objects: equal points are ONE dict, equal point lists ONE list (pts = [...]; {"F2": pts, "FL": pts})
+            lst = memo.setdefault(("list", json.dumps(ks)), [memo.setdefault(json.dumps(kd), {k: v for k, v in kd}) for kd in ks])
+            obsd[NAMES[n]] = lst
+        else:
+            obsd[NAMES[n]] = [{k: v for k, v in kd} for kd in ks]
     ob = cards.obs(obsd, xgrid=xg, deg=3, prDIS="EM", TargetDIS=target)
     cards.silence()
     from yadism import runner as yr
@@ -313,6 +320,31 @@ def run(ctx):
         desc = json.dumps(dict(target="iron", tmc=t, ncalls=n, plan=[[nm, [[[k, (round(v, 9) if isinstance(v, float) else v)] for k, v in kd] for kd in ks]] for nm, ks in p]))
         key = f"history:iron:{common.oid_of('C14', dict(tmc=t, ncalls=n, plan=p))}:{clause}"
         ctx.violation(key, f"{clause} in recorded run {desc}", dict(kind="C14", job=[tid, t, n, p, "iron"], clause=clause))
+    # cards that SHARE objects (one point dict / one point list under two observables, the same dict twice in a list): the same
+    # plans with and without sharing, validated together - a kinematics dict is a value for the specification
+    ali = []
+    u = universe()[1]
+    for t in ((1, 2) if q else (0, 1, 2, 3)):
+        k1, k2 = [["x", u[0]], ["Q2", QS[0]]], [["x", u[1]], ["Q2", QS[0]]]
+        ali.append((t, 1, [("F2", [k1, k2]), ("FL", [k1, k2])]))
+        ali.append((t, 2, [("FL", [k1, k1, k2])]))
+        ali.append((t, 1, [("F2", [k2, k1]), ("F2s", [k2, k1])]))
+    jobs3 = [(1000 + 2 * i + a, t, n, p, "proton", bool(a)) for i, (t, n, p) in enumerate(ali) for a in (0, 1)]
+    raw3 = ctx.pmap(execute, jobs3, chunksize=1)
+    dig3 = {}
+    traces3 = [to_ids(t, xid, dig3) for t in raw3]
+    for t in traces3:
+        ctx.count(1, nontrivial_key=("alias", t[0]["tid"]))
+    bad3 = validate(ctx, traces3, hdr, "runs_alias")
+    for t in traces3:
+        crash = [e for e in t if e["ev"] == "Crash"]
+        if crash and t[0]["tid"] not in bad3:
+            bad3[t[0]["tid"]] = "crash_" + crash[0]["etype"]
+    for tid, clause in sorted(bad3.items()):
+        _i, t, n, p, _tg, a = next(j for j in jobs3 if j[0] == tid)
+        desc = json.dumps(dict(shared_objects=a, tmc=t, ncalls=n, plan=[[nm, [[[k, (round(v, 9) if isinstance(v, float) else v)] for k, v in kd] for kd in ks]] for nm, ks in p]))
+        key = f"history:alias:{common.oid_of('C14', dict(tmc=t, ncalls=n, plan=p))}:{clause}"
+        ctx.violation(key, f"{clause} in recorded run {desc}", dict(kind="C14", job=[tid, t, n, p, "proton", a], clause=clause))
     selftest(ctx, [t for t in traces if t[0]["tid"] not in bad], hdr, len(dig))
     # the level above one runner: several runners of different configurations alive in one process (Session.tla)
     session.run(ctx)
@@ -362,7 +394,7 @@ def replay(ctx, obj):
     if obj.get("kind") == "C14session":
         return session.replay(ctx, obj)
     tid, t, n, p = obj["job"][:4]
-    tgt = tuple(obj["job"][4:5])
+    tgt = tuple(obj["job"][4:6])
     plans, hdr, xid = make_plans(obj.get("seed", 0), True)
     # the offending run together with solo runs of each of its requests (the history-free reference)
     jobs = [(0, t, n, p) + tgt]
